@@ -197,7 +197,17 @@ def r06_1(ctx):
         if s.cls in ("CREATE_TRUNC", "REMOVE", "WRITE_HANDLE") and s.role == "TMP":
             continue      # temp targets are (re)written in verify by design
         if is_tmp_create(ctx, s):
-            continue      # TMP-CREATE, checked by R10.2
+            # TMP-CREATE (the file creation inside try_resolve, R10.2): in Verify it may only be requested by the temp writer — any other
+            # caller asking for `create` would make verify create a missing output / include target
+            wt_ = body(ctx, "write_temp_file")
+            for (cb, cbb, ct) in C.all_call_sites(ctx.lib, lambda ns, t: ROLE["try_resolve"] in ns):
+                v = C.op_const(ct["args"][2]) if len(ct["args"]) > 2 else None
+                if v == "false" or cb is wt_:
+                    continue
+                if "Verify" in modes(ctx).site_modes(cb, cbb):
+                    ctx.violation([cb.name, "try_resolve-create-verify"], "try_resolve(_, create) outside the temp writer is reachable in Verify mode: "
+                                  "verify would create a missing file", site=ctx.site(cb, cbb))
+            continue
         if "Verify" in s.modes:
             ctx.violation([s.key()], "%s (%s) is reachable in Verify mode: verify must not create, modify or delete outputs" % (s.name, s.cls), site=site)
         else:
@@ -608,6 +618,15 @@ def r07_6(ctx):
                               "clean and build can disagree about which lines belong to a directive" % (what, role_name, sorted(lm)), site=ctx.site(b, bb))
 
 
+@rule("C07", "R07.8", floor=1)
+def r07_8(ctx):
+    """what clean removes for a temp directive is the one location build would have written: try_resolve names the argument itself when
+    absolute, else the argument joined onto the source's directory — no fallback directory in which a same-named file that build never
+    generated could be found and deleted (= C10 R10.5)"""
+    import rules_dir
+    rules_dir.r10_5(ctx)
+
+
 @rule("C07", "R07.7", floor=1)
 def r07_7(ctx):
     """clean removes every temp target it can resolve: in the Clean region of the temp writer an Ok return is reached only past
@@ -736,6 +755,9 @@ def forward_uses(b, local, depth=40):
                     if p and p["l"] == l:
                         work.append(st["lhs"]["l"])
             if src and src["l"] == l:
+                if any(e["k"] == "field" and e.get("owner") in ("std::result::Result", "std::ops::ControlFlow") and e.get("variant") in ("Err", "Break")
+                       for e in src["p"]):
+                    continue        # the error side of the Result: an io::Error, not the bytes that were read
                 work.append(st["lhs"]["l"])
         for bb, t in b.calls():
             if any((C.op_place(a) or {}).get("l") == l for a in t["args"]):
@@ -1029,6 +1051,14 @@ def clap_arg_short(binp, arg_id):
 
 TIME_APIS = re.compile(r"^(std::fs::Metadata::(modified|accessed|created)|std::time::SystemTime::(now|elapsed|duration_since)|std::fs::File::set_times"
                        r"|std::fs::File::set_modified|std::fs::FileTimes::.*)$")
+
+
+@rule("C08", "R08.5", floor=2)
+def r08_5(ctx):
+    """the process working directory is not an input: the directory handed to Command::current_dir is the absolute source directory, never
+    its base-relative rendering, which the OS would resolve against wherever the txtpp process happens to run (= C17 R17.1)"""
+    import rules_run
+    rules_run.r17_1(ctx)
 
 
 @rule("C08", "R08.4", floor=1)
